@@ -179,16 +179,25 @@ pub(crate) fn apply_rules_on_link(
         product_paths.difference(&material_paths).cloned().collect();
     let deleted: BTreeSet<_> =
         material_paths.difference(&product_paths).cloned().collect();
+    // digests by canonicalized path, as `material_paths` / `product_paths` are
+    let canonical_materials: BTreeMap<VirtualTargetPath, &TargetDescription> =
+        src_link
+            .materials
+            .iter()
+            .filter_map(|(path, v)| canonicalize_path(path).map(|p| (p, v)))
+            .collect();
+    let canonical_products: BTreeMap<VirtualTargetPath, &TargetDescription> =
+        src_link
+            .products
+            .iter()
+            .filter_map(|(path, v)| canonicalize_path(path).map(|p| (p, v)))
+            .collect();
     let modified: BTreeSet<_> = material_paths
         .intersection(&product_paths)
-        .cloned()
-        .filter_map(|name| {
-            if src_link.materials[&name] != src_link.products[&name] {
-                Some(name)
-            } else {
-                None
-            }
+        .filter(|name| {
+            canonical_materials.get(name) != canonical_products.get(name)
         })
+        .cloned()
         .collect();
 
     #[derive(Debug)]
